@@ -383,4 +383,110 @@ def obligations(tier):
     obls += borrow("C18", ["spawn_docmd", "spawn_main"] + ([] if quick else ["spawn_getcmd"]), tier)
     if not quick:
         obls += borrow("C03", ["todo_do"], tier)
+    obls += more_kernels(tier)      # remoteinfo, tcpto, dns_mxip, ip_fmt, pw2u, splogger, maildir_scan, newfield, qreceipt (below)
+    return obls
+
+
+# ---------------------------------------------------------------- further kernels that parse untrusted / semi-trusted input
+def more_kernels(tier):
+    quick = (tier == "quick")
+    obls = []
+    # kills: (tools/mutant.sh, each VIOLATION with native replay rc 1)
+    obls.append(Obl(
+        "remoteinfo_parse", "rinfo.c",
+        progs=[Prog("remoteinfo.c", sub=[(r"^static char line\[999\];", "static char line[LSZ];", 1)])],
+        repo=["substdio.c", "fmt_ulong.c", "fmt_str.c", "byte_copy.c", "byte_zero.c"], lib=["ideal_substdio.c"],
+        sysrename=["socket", "bind", "fcntl", "close"],
+        grid=[{"LSZ": 999, "N": n} for n in ((8,) if quick else (0, 4, 8, 12, 14))]
+             + [{"LSZ": 64, "N": n} for n in ((16,) if quick else (12, 16, 20))]
+             + [{"LSZ": 8, "N": n} for n in ((12,) if quick else (10, 12, 14, 16))],
+        unwind=lambda p: {"remoteinfo_get": p["N"] + 2, "fmt_ulong": 6, "fmt_str": 5, "byte_copy": 3, "byte_zero": 6,
+                          "substdio_put": 17},
+        unwind_default=lambda p: p["N"] + 2, timeout=600,
+        functions=["remoteinfo.c:remoteinfo_get"],
+        stubs=["substdio_get/putflush: ideal streams (layer 0)", "socket/bind/fcntl/close/timeoutconn: succeed, or one of them fails"],
+        assumes=["reply: exactly N arbitrary bytes (grid), then EOF or a read error; ports < 65536",
+                 "LSZ 8: parametric copy of remoteinfo.c whose only edit is the size of `line` (999 -> 8), ports < 10"],
+        outside=["replies longer than 16 bytes; the buffer-full exit at the shipped size 999 (decided on the parametric copy)"],
+        claim="remoteinfo_get on any reply of N bytes: every store is inside line[], the result is NULL or line holding exactly the "
+              "user-id field (RFC 1413) cut to sizeof(line)-1 bytes and NUL-terminated inside the buffer",
+        expect_witnesses=lambda p: ["connection_failed", "reply_incomplete", "timeout_or_read_error"]
+        + (["parsed", "empty_userid"] if p["N"] >= 4 else []) + (["userid_returned"] if p["N"] >= 6 else [])
+        + (["buffer_full_truncated"] if p["LSZ"] == 8 and p["N"] >= 10 else [])))
+    obls.append(Obl(
+        "tcpto_records", "tcptorec.c",
+        progs=[Prog("tcpto.c", sub=[(r"^char tcpto_buf\[1024\];", "char tcpto_buf[TBUF];", 1)])],
+        repo=["byte_copy.c"],
+        sysrename=["read", "write", "close", "lseek", "time", "getpid"],
+        grid=[{"TBUF": 64}] + ([] if quick else [{"TBUF": 128}, {"TBUF": 256}]),
+        unwind_default=lambda p: p["TBUF"] // 16 + 2, unwind={"memcmp": 6, "byte_copy": 3, "vf_read": 1030},
+        flags=["--max-field-sensitivity-array-size", "1024"], timeout=900, backend="cadical",
+        functions=["tcpto.c:tcpto", "tcpto.c:tcpto_err", "tcpto.c:getbuf"],
+        stubs=["open_write/open_read/lock_ex: succeed, or one of the six calls fails", "read: -1 or any length 0..TBUF of an arbitrary image "
+               "(a second, independent image for the second read)", "lseek/write/close: checking stubs", "time: any 0 <= t < 2^40; getpid: any"],
+        assumes=["TBUF 64: parametric copy of tcpto.c whose only edit is the size of tcpto_buf (1024 -> 64, 4 records)",
+                 "counter byte [4] of every record in 0..126: on a negative char `record[4] << 10` is an undefined shift without memory "
+                 "effect, and cbmc (not C) calls `++record[4]` at 127 an overflow; the documents do not mention the format"],
+        outside=["tcpto_clean() (writes 1024 constant bytes through substdio: l0_substdio_out)"],
+        claim="tcpto()/tcpto_err() on arbitrary contents and any length of queue/lock/tcpto: all accesses inside tcpto_buf, read() gets "
+              "exactly the buffer, the one record written lies inside the bytes read, at the offset it came from, under the lock",
+        expect_witnesses=["address_recently_timed_out", "address_known_not_recent", "new_record_stored_in_full_size_file", "timeout_recorded",
+                          "success_clears_counter", "file_length_not_a_multiple_of_16", "open_or_lock_failed", "read_failed"]))
+    def mx_wit(p):
+        if p["DL"] == 7:
+            return ["address_literal", "returned"]
+        w = ["returned", "addresses_collected", "allocation_refused_somewhere", "no_mx_falls_back_to_a" if p["NA"] >= 1 else None]
+        if p["NA"] >= 2:
+            w += ["soft_failure_for_one_exchanger", "soft_error_after_a_name_was_collected", "two_exchangers_looked_up", "equal_preferences_randomised"]
+        if p["NA"] * p["AMAX"] >= 12:
+            w.append("ipalloc_grew_twice")
+        return [x for x in w if x]
+    obls.append(Obl(
+        "ipalloc_dns_sort", "mxsort.c",
+        progs=[Prog("dns.c", cut=["resolve", "findmx", "findip"])],
+        repo=["ipalloc.c", "ip.c", "scan_ulong.c", "fmt_ulong.c", "fmt_str.c", "stralloc_copy.c", "stralloc_opys.c", "stralloc_opyb.c",
+              "stralloc_pend.c", "byte_copy.c"],
+        sysrename=["dn_expand", "realloc"],
+        grid=[{"NA": n, "AMAX": 2, "DL": 3} for n in (1, 2)] + [{"NA": 1, "AMAX": 1, "DL": 7}]
+             + ([] if quick else [{"NA": 0, "AMAX": 2, "DL": 3}, {"NA": 3, "AMAX": 2, "DL": 3}, {"NA": 1, "AMAX": 12, "DL": 3}]),
+        unwind=lambda p: {"dns_mxip": p["NA"] + 2, "dns_ipplus": p["AMAX"] + 2, "vmain": p["AMAX"] * (p["NA"] + 2) + 2, "scan_ulong": 9, "strlen": 6, "byte_copy": 4},
+        unwind_default=24, timeout=900,
+        functions=["dns.c:dns_mxip", "dns.c:dns_ipplus", "dns.c:dns_ip", "ipalloc.c:ipalloc_append", "ipalloc.c:ipalloc_readyplus"],
+        cuts=["resolve, findmx, findip -> contracts (2 iff numanswers <= 0, else one answer consumed); their reads of the response: dns_walkers"],
+        stubs=["malloc/free: cbmc's own (exactly-sized objects, use-after-free/double-free checks); realloc: exactly-sized blocks of 11 / 23 "
+               "elements, may refuse once", "stralloc_ready*: one block per stralloc, a fresh allocation may be refused"],
+        assumes=["MX query: NA answers (grid), each skipped / MX with any preference and any name of 0..3 bytes / soft error; each A query: any "
+                 "0..AMAX answers; any resolve() outcome; domain: DL arbitrary bytes"],
+        outside=["more than 3 MX records, more than 12 addresses; the leak of collected names on the DNS_SOFT exit is not a C20 clause"],
+        claim="dns_mxip: indexes stay inside mx[] (exactly numanswers elements) and the ipalloc through collection, selection, "
+              "mx[i] = mx[--nummx] and the clean-up loops; no name is used after free or freed twice; len <= a; result sorted by preference",
+        expect_witnesses=mx_wit))
+    obls.append(Obl(
+        "ip_scan_fmt", "ipfmt.c", repo=["ip.c", "fmt_ulong.c", "fmt_str.c", "scan_ulong.c"],
+        unwind={"fmt_ulong": 4, "fmt_str": 3, "scan_ulong": 5}, unwind_default=17, timeout=600, backend="cadical",
+        functions=["ip.c:ip_fmt", "ip.c:ip_scan", "ip.c:ip_scanbracket"],
+        assumes=["any 4 address bytes"], outside=["ip_scan on strings that ip_fmt does not produce: scan_ip"],
+        claim="ip_fmt(0,ip) == bytes written, 7..15 <= IPFMT, into an exactly-sized block; ip_scan and ip_scanbracket read the text back "
+              "to the same address and consume exactly its length",
+        expect_witnesses=["round_trip", "shortest", "longest_255_255_255_255_style"]))
+    obls.append(Obl(
+        "pw2u_line", "pw2u.c", progs=[Prog("qmail-pw2u.c", nomain=True)],
+        repo=["byte_chr.c", "scan_ulong.c", "str_chr.c", "stralloc_opyb.c", "stralloc_opys.c", "stralloc_cats.c", "stralloc_catb.c",
+              "stralloc_pend.c", "byte_copy.c"],
+        lib=["ideal_substdio.c"], sysrename=["stat", "_exit"],
+        grid=[{"N": n} for n in ((5, 9, 10) if quick else (0, 3, 6, 8, 9, 10, 11, 12))],
+        unwind=lambda p: {"byte_chr": p["N"] + 2, "byte_copy": p["N"] + 2, "scan_ulong": p["N"] + 1, "str_chr": p["N"] + 2,
+                          "strlen": p["N"] + 2, "substdio_put": p["N"] + 2, "doaccount": p["N"] + 2, "vf_stat": p["N"] + 3},
+        unwind_default=lambda p: 2 * p["N"] + 3, timeout=900,
+        functions=["qmail-pw2u.c:doaccount"],
+        stubs=["substdio: ideal streams", "stat: any outcome (exists with any owner / ENOENT / other error)",
+               "stralloc_ready*: the seven strallocs are pre-sized (N+2, allusers 2N+2), filled with stale non-NUL bytes; extents asked for are recorded"],
+        assumes=["line of exactly N arbitrary bytes (grid); users/include, exclude, mailnames absent; default flags; alias user 'a', break '-'"],
+        outside=["longer lines; mailnames/include/exclude tables (constmap: control_constmap); dosubuser(); uid fields of 10+ digits"],
+        claim="doaccount on any passwd line of N bytes: no out-of-bounds access (every printed or stat()ed field is NUL-terminated inside "
+              "its block), output has no NUL and only complete lines, malformed/ineligible lines print nothing, an accepted numeric account "
+              "prints exactly the qmail-users(5) assignments",
+        expect_witnesses=lambda p: ["malformed_line_skipped"] + (["account_skipped", "non_numeric_uid_or_gid", "empty_user_name_prints_nothing",
+                                                                   "stat_error_is_fatal"] if p["N"] >= 8 else [])
+        + (["account_printed", "alias_user"] if p["N"] >= 10 else [])))
     return obls
